@@ -285,10 +285,14 @@ func c01Run(r *vkit.Run) {
 		}
 	}
 	r.GlobalState("pipelines<=2")
-	if r.Thorough() {
+	{
+		lat := 5
+		if r.Thorough() {
+			lat = 1
+		}
 		for a := range c01A {
 			for b := range c01A {
-				for c := (a + b) % 5; c < len(c01A); c += 5 {
+				for c := (a + b) % lat; c < len(c01A); c += lat {
 					visit(c01Input{Data: "all", Sel: sels[(a+b+c)%4], Stages: []int{a, b, c}}, false)
 				}
 			}
@@ -314,7 +318,7 @@ func c01Run(r *vkit.Run) {
 		}
 	}
 	r.GlobalState("ordered-triples")
-	r.Note("bounds", fmt.Sprintf("%d records (plain, logfmt, JSON and IP lines incl. empty, non-UTF-8, unparsable and absent fields) x %d selectors x probe pipelines; all %d^1 and %d^2 pipelines over a %d-stage alphabet (thorough: +1/5 of all triples); 216 ordered record triples (with timestamp ties) x distinct pipelines; every query under every storage capability split that can matter (2^#selector-ops x 2^#line-filter-ops)", len(c01All), len(c01Sels), len(c01A), len(c01A), len(c01A)))
+	r.Note("bounds", fmt.Sprintf("%d records (plain, logfmt, JSON and IP lines incl. empty, non-UTF-8, unparsable and absent fields) x %d selectors x probe pipelines; all %d^1 and %d^2 pipelines over a %d-stage alphabet (quick: a fifth of all triples, thorough: all); 216 ordered record triples (with timestamp ties) x distinct pipelines; every query under every storage capability split that can matter (2^#selector-ops x 2^#line-filter-ops)", len(c01All), len(c01Sels), len(c01A), len(c01A), len(c01A)))
 }
 
 func c01Replay(r *vkit.Run, v vkit.Violation) *vkit.Violation {
